@@ -1,2 +1,11 @@
 ; strings.ToLower: uninterpreted, idempotent (instances are added by lemmas where needed)
 (declare-fun tolower (String) String)
+; Instances of strings.ToLower on the literal names of the repository (trusted facts about the library function,
+; listed as assumptions): the identity on lower-case names, case folding of the operation names.
+(assert (and (= (tolower "kill_thread") "kill_thread") (= (tolower "kill_process") "kill_process") (= (tolower "trap") "trap")
+             (= (tolower "errno") "errno") (= (tolower "trace") "trace") (= (tolower "log") "log") (= (tolower "allow") "allow")))
+(assert (and (= (tolower "Equal") "equal") (= (tolower "NotEqual") "notequal") (= (tolower "GreaterThan") "greaterthan")
+             (= (tolower "LessThan") "lessthan") (= (tolower "GreaterOrEqual") "greaterorequal") (= (tolower "LessOrEqual") "lessorequal")
+             (= (tolower "BitsSet") "bitsset") (= (tolower "BitsNotSet") "bitsnotset")))
+; ToLower is idempotent
+(assert (forall ((s String)) (! (= (tolower (tolower s)) (tolower s)) :pattern ((tolower (tolower s))))))
